@@ -138,6 +138,8 @@ def run_shard(args):
         sub = find_sub(mod, sub_name)
         known = known_findings()
 
+        targeting = False
+
         def handle(case):
             np.seterr(**NP_ERR)  # a leak of the error state by one case must not change the verdict of the next
             v = safe_judge(sub, case)
@@ -152,6 +154,16 @@ def run_shard(args):
             for k, val in v.info.items():
                 if isinstance(val, (int, float)) and val == val:
                     res["worst"][k] = max(res["worst"].get(k, val), val)
+            if targeting and v.ok:
+                # guided search (Hypothesis targeting): steer generation towards cases with the largest deviation observed so
+                # far, so that accuracy defects confined to a corner of the domain are approached instead of waited for
+                devs = [float(x) for k, x in v.info.items() if ("dev" in k) and isinstance(x, (int, float)) and x == x and 0 < x < 1e300]
+                if devs:
+                    import math
+
+                    from hypothesis import target
+
+                    target(math.log10(max(devs)), label="log10(largest deviation / scale)")
             if not v.ok:
                 if v.key is not None and (prop, v.key) in known:
                     res["known"].append((v.key, known[(prop, v.key)]))
@@ -208,6 +220,9 @@ def run_shard(args):
             phases = [Phase.explicit, Phase.generate]
             if tier == "thorough" or os.environ.get("VERIF_SHRINK") == "1":
                 phases.append(Phase.shrink)
+            if (tier == "thorough" or os.environ.get("VERIF_TARGET") == "1") and int(shard.get("n", 10)) >= 20:
+                phases.insert(2, Phase.target)
+                targeting = True
             # Hypothesis always starts with the all-minimal example (one s shell at the origin, coincident centres, ...);
             # one extra example is granted so that a shard of n examples contains n generated ones.
             n = int(shard.get("n", 10)) + 1
